@@ -6,6 +6,7 @@ import MotoModel.Proofs.DiskSector
 import MotoModel.Proofs.DiskHistory
 import MotoModel.Proofs.DiskRuns
 import MotoModel.Proofs.DiskPlace
+import MotoModel.Proofs.DiskSections
 namespace Moto.C10
 open Moto Moto.Disk
 
@@ -188,5 +189,30 @@ theorem end_of_side_marker (w : Tape.World) (src : Str) (rest : List Str) (st : 
   dsimp only
   rw [if_neg (by omega)]
   exact ⟨_, rfl⟩
+
+/-- **C10 (the per-side sections of the report list files that the image holds on that side)**:
+    `storedOn 0 (batchEvents …)` is the list of (side of the section, announcement) pairs of the
+    create/add report, in order; every pair is honoured by the image the batch leaves: side `k` holds
+    the file, in a slot that held nothing before, with the announced size and block count -/
+theorem report_sections_match_image (w : Tape.World) (verbose : Bool) (img : Image) (srcs : List Str)
+    (himg : ImgOk img) (hs : ∀ src ∈ srcs, CleanSrc src) :
+    ∃ st, performCore w verbose img srcs = .ok st ∧ ImgOk st.img
+      ∧ st.l = play (onBeginOfSide { processing := 2, verbose := verbose } 0) (batchEvents w srcs img)
+      ∧ ∀ p ∈ storedOn 0 (batchEvents w srcs img), Honoured img st.img p := by
+  obtain ⟨st, hst, hok, hhon⟩ := batch_sections w verbose img srcs himg hs
+  exact ⟨st, hst, hok, performCore_events w verbose img srcs st hst, hhon⟩
+
+/-- one offered file: announced stored in the section of side `k` exactly when the image receives
+    it on side `k`; announced nowhere exactly when no slot of any side changes -/
+theorem file_announced_where_stored (name ext : Str) (kind flag : Nat) (data : Bytes) (hname : ∀ c ∈ name, c ≠ 0xFF)
+    (st : Inj) (h : ImgOk st.img) (hc : st.cur < 4) :
+    ∃ st', injWriteFile name ext kind flag data 4 st = .ok st' ∧
+      ((∃ k i0 r, k < 4 ∧ i0 < 112
+          ∧ storedOn st.cur (fileEvents name ext kind flag data 4 st.img st.cur) = [(k, evOf name ext kind flag data)]
+          ∧ imgFileAt st.img k i0 = none ∧ imgFileAt st'.img k i0 = some (r, data) ∧ st'.cur = k
+          ∧ sideAfter st.cur (fileEvents name ext kind flag data 4 st.img st.cur) = k)
+       ∨ (storedOn st.cur (fileEvents name ext kind flag data 4 st.img st.cur) = []
+          ∧ ∀ k j, k < 4 → j < 112 → imgFileAt st'.img k j = imgFileAt st.img k j)) :=
+  announced_where_stored name ext kind flag data hname st h hc
 
 end Moto.C10
